@@ -27,6 +27,10 @@
 //   REQ id svc meth payload         peer sends a REQUEST frame ("-" = field absent)
 //   DONE k data                     the test service completes deferred request k
 //   OTHER id                        peer sends a frame of type ERROR
+//   SER type id svc meth req resp err   RpcMessage built field by field ("~" = field absent, "-" = present and empty,
+//                                   else hex; type/err by number), printed as wire:<hex of SerializeAsString>
+//   WIRE hex                        RpcMessage::ParsePartialFromString + IsInitialized (= ParseFromString without the
+//                                   log line) of arbitrary bytes: parsed:<type>:<id>:<svc>:<meth>:<req>:<resp>:<err> | parsed:reject
 //   DOWN                            the peer closes; the connection reads EOF: handleClose -> connection callback
 //                                   (DOWN) -> close callback -> connectDestroyed.  In svc=1 mode RpcServer::onConnection
 //                                   drops the channel (~RpcChannel deletes what is outstanding: events del:/drop:).
@@ -741,6 +745,34 @@ int main()
       m.set_type(ERROR);
       m.set_id(static_cast<uint64_t>(strtoll(w[1].c_str(), NULL, 10)));
       if (down) rejected = true; else feed(m);
+    }
+    else if (k == "SER")
+    {
+      RpcMessage m;
+      m.set_type(static_cast<MessageType>(atoi(w[1].c_str())));
+      m.set_id(strtoull(w[2].c_str(), NULL, 10));
+      if (w[3] != "~") m.set_service(vh::bytesOfSpec(w[3]));
+      if (w[4] != "~") m.set_method(vh::bytesOfSpec(w[4]));
+      if (w[5] != "~") m.set_request(vh::bytesOfSpec(w[5]));
+      if (w[6] != "~") m.set_response(vh::bytesOfSpec(w[6]));
+      if (w[7] != "~") m.set_error(static_cast<ErrorCode>(atoi(w[7].c_str())));
+      g_ev.push_back("wire:" + hexOrDash(m.SerializeAsString()));
+    }
+    else if (k == "WIRE")
+    {
+      RpcMessage m;
+      string in = vh::bytesOfSpec(w[1]);
+      if (m.ParsePartialFromString(in) && m.IsInitialized())
+      {
+        string e = "parsed:" + std::to_string(static_cast<int>(m.type())) + ":" + std::to_string(static_cast<unsigned long long>(m.id()));
+        e += ":" + (m.has_service() ? hexOrDash(m.service()) : string("~"));
+        e += ":" + (m.has_method() ? hexOrDash(m.method()) : string("~"));
+        e += ":" + (m.has_request() ? hexOrDash(m.request()) : string("~"));
+        e += ":" + (m.has_response() ? hexOrDash(m.response()) : string("~"));
+        e += ":" + (m.has_error() ? std::to_string(static_cast<int>(m.error())) : string("~"));
+        g_ev.push_back(e);
+      }
+      else g_ev.push_back("parsed:reject");
     }
     else if (k == "DOWN")
     {
